@@ -932,8 +932,11 @@ class Container:
         to = to_array[0]
         return source_slice.plate, to
 
-    @cache
     def dataframe(self) -> pandas.DataFrame:
+        return self._dataframe().copy()  # (the caller's own table: the memoised one stays as it is)
+
+    @cache
+    def _dataframe(self) -> pandas.DataFrame:
         df = pandas.DataFrame(columns=['Volume', 'Mass', 'Moles', 'U'])
         if self.max_volume == float('inf'):
             df.loc['Maximum Volume'] = ['∞', '-', '-', '-']
